@@ -28,7 +28,7 @@ func init() {
 				"copy QueryLogEnabled and IPLogEnabled from the fields of the same name, and newRequestInfo re-initialises every " +
 				"field of the pooled request information on every path, so a request never inherits the previous request's profile.",
 			NotCovered: "JSON well-formedness of arbitrary field contents (encoding/json trusted); atomicity of O_APPEND writes in the kernel.",
-			Rules: map[string]string{"C15-R11": "clone methods of filtering results copy every field (list and rule IDs are what gets logged)", "C15-R1": "recordQueryInfo gates and entry provenance", "C15-R2": "sole callers of log/billing sinks; record only after the write",
+			Rules: map[string]string{"C15-R12": "no whole-struct copy of a dns.Msg (the copy shares Question and the RR slices with the logged request); pool constructors build fresh buffers", "C15-R11": "clone methods of filtering results copy every field (list and rule IDs are what gets logged)", "C15-R1": "recordQueryInfo gates and entry provenance", "C15-R2": "sole callers of log/billing sinks; record only after the write",
 				"C15-R3": "single append write from the pooled buffer", "C15-R4": "result switches exhaustive", "C15-R5": "every field of the entry is written",
 				"C15-R6": "the logging opt-in flags are copied name-to-name by the backend and file-cache conversions; the recycled request-information object (which carries the profile attribution) is fully re-initialised"},
 		}})
@@ -62,6 +62,12 @@ func runC15(c *an.Ctx) {
 		c.Ok("C15-R11", "clone methods of results and messages copy every field", token.NoPos, "%d clone methods examined", n)
 	} else {
 		c.Und("C15-R11", "clone methods of results and messages copy every field", token.NoPos, "only %d clone methods found", n)
+	}
+	// ---- R12: the request that is logged is never modified through a shallow copy of its message (a copy of a dns.Msg
+	// shares the question slice); pool constructors of the log's buffers build fresh buffers
+	c.Inf("C15-R12", "whole-message copies", token.NoPos, "%d whole-struct copies of dns.Msg examined outside package dnsmsg", sharedNoShallowCopy(c, "C15-R12", "", "github.com/miekg/dns.Msg"))
+	if n := sharedPoolNewFresh(c, "C15-R12"); n < 10 {
+		c.Und("C15-R12", "pool constructors", token.NoPos, "only %d pool constructors found", n)
 	}
 	c.Floor("C15-R7", 1)
 	mainPipeline(c, "C15-R7")
